@@ -68,6 +68,10 @@ def run_case(case: dict[str, Any], root: str, store: str, fmt: str) -> dict[str,
     """Returns {'steps': n, 'violation': None|str, 'traces': [...], 'skipped': reason|None}."""
     out: dict[str, Any] = {"name": case["name"], "steps": 0, "violation": None, "traces": [], "skipped": None, "nontrivial": False}
     text = case["main"]
+    if case["name"].endswith(("-skip", "-xfail", "-posix", "-windows")) or "--bazel" in text or "--skip-cache-mtime-checks" in text or "--skip-version-check" in text:
+        # cases the repository itself skips / expects to fail, and modes that trust the cache by design
+        out["skipped"] = "skipped by the repository / cache-trusting mode"
+        return out
     if "plugin" in text or any("plugin" in k for k in case["files"]) or "# cmd" in text and "-m" not in text:
         out["skipped"] = "plugins / unsupported cmd"
         return out
